@@ -2,7 +2,7 @@
 
 import numpy as np
 
-from toqito.channel_ops import choi_to_kraus
+from toqito.channel_ops import choi_to_kraus, kraus_to_choi
 from toqito.matrix_props import is_unitary as is_unitary_matrix
 
 
@@ -67,6 +67,15 @@ def is_unitary(phi: np.ndarray | list[list[np.ndarray]]) -> bool:
     :return: :code:`True` if the channel is a unitary channel, and :code:`False` otherwise.
 
     """
+    # If the variable `phi` is provided as a non-empty list, we assume this is a list of Kraus operators. Whether the
+    # channel is unitary must not depend on how it is written down (a list may contain linearly dependent or zero
+    # operators), so it is reduced to a minimal Kraus representation through its Choi matrix.
+    if isinstance(phi, list) and len(phi) > 0:
+        try:
+            phi = kraus_to_choi(phi)
+        except ValueError:
+            return False
+
     # If the variable `phi` is provided as a ndarray, we assume this is a
     # Choi matrix.
     if isinstance(phi, np.ndarray):
